@@ -483,6 +483,20 @@ func hashTree(es []entry) string {
 	return hex.EncodeToString(h.Sum(nil))[:24]
 }
 
+// stateHash identifies a state: the plugin directory, the entries the initial
+// states put next to it, and whether the root exists. Anything else that may
+// appear under the root (staging or temporary entries of another
+// implementation) is not part of the identity; it is recorded when it changes.
+func stateHash(es []entry) string {
+	var k []entry
+	for _, e := range es {
+		if inPluginDir(e.P) || e.P == "zz-stray" || strings.HasPrefix(e.P, "zz-stray/") || e.P == "<root-absent>" {
+			k = append(k, e)
+		}
+	}
+	return hashTree(k)
+}
+
 func showTree(es []entry) string {
 	var sb strings.Builder
 	for i, e := range es {
@@ -525,13 +539,10 @@ func (m model) class() string {
 }
 
 func (m model) behaviour() string {
-	switch {
-	case m.Existing == "none":
-		return "absent"
-	case m.Existing == "broken":
-		return "broken"
+	if strings.HasPrefix(m.Existing, "v:") {
+		return "ok:" + pluginName + "@" + m.Existing[2:]
 	}
-	return "ok:" + pluginName + "@" + m.Existing[2:]
+	return "unavailable" // nothing there, or something that does not answer
 }
 
 type initState struct {
@@ -608,21 +619,24 @@ type viol struct {
 }
 
 type result struct {
-	Infra      string   `json:"infra,omitempty"`
-	Viol       []viol   `json:"viol,omitempty"`
-	Outcome    string   `json:"outcome"`
-	Evals      int      `json:"evals"`
-	Want       string   `json:"want"` // proceed | refuse | either
-	Proceeded  bool     `json:"proceeded"`
-	Err        string   `json:"err,omitempty"`
-	After      []entry  `json:"after"`
-	AfterHash  string   `json:"after_hash"`
-	StripHash  string   `json:"strip_hash"` // hash of After without the op's extra files
-	Model      model    `json:"model"`      // model of the successor
-	Nontrivial bool     `json:"nontrivial"`
-	Control    bool     `json:"control"` // positive control: honest install expected to proceed and did
-	Notes      []string `json:"notes,omitempty"`
+	Infra       string   `json:"infra,omitempty"`
+	Viol        []viol   `json:"viol,omitempty"`
+	Outcome     string   `json:"outcome"`
+	Evals       int      `json:"evals"`
+	Want        string   `json:"want"` // proceed | refuse | either
+	Proceeded   bool     `json:"proceeded"`
+	Err         string   `json:"err,omitempty"`
+	After       []entry  `json:"after"`
+	AfterHash   string   `json:"after_hash"`
+	StripHash   string   `json:"strip_hash"` // hash of After without the op's extra files
+	Model       model    `json:"model"`      // model of the successor
+	Nontrivial  bool     `json:"nontrivial"`
+	Control     bool     `json:"control"`            // positive control: honest install expected to proceed and did
+	Recorded    []string `json:"recorded,omitempty"` // observations beyond the statement: evidence only
+	NoSuccessor bool     `json:"no_successor,omitempty"`
 }
+
+func (res *result) record(key string) { res.Recorded = append(res.Recorded, key) }
 
 func (res *result) violation(key, format string, a ...any) {
 	res.Viol = append(res.Viol, viol{key, fmt.Sprintf(format, a...)})
@@ -630,21 +644,23 @@ func (res *result) violation(key, format string, a ...any) {
 
 var ctx = context.Background()
 
-// behave runs what is installed: Get("foo") + GetMetadata.
-func behave(mgr *plugin.CLIManager, res *result) string {
+// behave runs what is installed: Get("foo") + GetMetadata. The class is
+// "ok:<name>@<version>" or "unavailable"; kind tells absent / not fetchable /
+// not answering apart (same code + same tree => same kind), without error text.
+func behave(mgr *plugin.CLIManager, res *result) (class, kind string) {
 	res.Evals++
 	p, err := mgr.Get(ctx, pluginName)
 	if err != nil {
 		if errors.Is(err, os.ErrNotExist) {
-			return "absent"
+			return "unavailable", "absent"
 		}
-		return "get-error:" + err.Error()
+		return "unavailable", "get-error"
 	}
 	md, err := p.GetMetadata(ctx, &pfw.GetMetadataRequest{})
 	if err != nil {
-		return "broken"
+		return "unavailable", "metadata-error"
 	}
-	return "ok:" + md.Name + "@" + md.Version
+	return "ok:" + md.Name + "@" + md.Version, "ok"
 }
 
 func listed(mgr *plugin.CLIManager, res *result) (bool, []string, error) {
@@ -676,35 +692,61 @@ func applyRaw(mgr *plugin.CLIManager, srcBase string, o op) (bool, error) {
 	return ierr == nil, nil
 }
 
-// expect is the reference installer's decision.
+func plainShape(sh *shape) bool { return sh.Label == "file-exe" || sh.Label == "dir-exe" }
+
+// expect is the reference installer's decision: "refuse" and "proceed" are what
+// the statement fixes, "either" is what it leaves open (recorded, consequences
+// of whatever happens still checked).
+//
+//   - invalid or misnamed metadata                                   -> refuse (stated)
+//   - existing plugin with a version, no overwrite, new version not
+//     strictly higher / a version that is no semantic version        -> refuse (stated, whatever the source)
+//   - source labelled unusable                                       -> either: the statement does not define
+//     "usable"; a success must still satisfy every stated consequence for plugin foo
+//   - existing plugin malfunctioning, no overwrite                   -> either
+//   - new version not a semantic version, nothing to compare with
+//     (no existing plugin, or overwrite)                             -> either ("invalid version" may be refused)
+//   - a shape other than the plain executable / directory holding
+//     only it                                                        -> either here; the differential clause
+//     ties it to the plain shape of its family
+//   - plain shape, valid version: no existing plugin / overwrite /
+//     strictly higher                                                -> proceed
 func expect(m model, o op) (want, reason string) {
 	sh, v := shapeOf(o.Shape), verOf(o.Version)
+	if !sh.MetaOK || !v.MetaOK {
+		return "refuse", "invalid-metadata"
+	}
+	rule := "" // how the version rule or its absence allows the installation
+	switch {
+	case m.Existing == "none":
+		rule = "fresh"
+	case o.Overwrite:
+		rule = "overwrite"
+	case m.Existing == "broken":
+		rule = "broken-existing-no-overwrite"
+	default:
+		e := verOf(m.Existing[2:])
+		switch {
+		case e == nil || !e.Valid || !v.Valid:
+			return "refuse", "invalid-version"
+		case rank(v.S) == rank(e.S):
+			return "refuse", "equal-precedence"
+		case rank(v.S) < rank(e.S):
+			return "refuse", "lower"
+		}
+		rule = "higher"
+	}
 	switch {
 	case !sh.Usable:
-		return "refuse", "unusable-source"
-	case !sh.MetaOK || !v.MetaOK:
-		return "refuse", "invalid-metadata"
-	case m.Existing == "none":
-		return "proceed", "fresh"
-	case o.Overwrite:
-		return "proceed", "overwrite"
-	case m.Existing == "broken":
-		// The statement allows replacement "only if the new version is strictly
-		// higher … or overwrite": with a malfunctioning existing plugin there is
-		// no existing version, and the statement neither demands refusal nor
-		// replacement. Recorded as an outcome class, consequences still checked.
-		return "either", "broken-existing-no-overwrite"
+		return "either", "unusable-source"
+	case rule == "broken-existing-no-overwrite":
+		return "either", rule
+	case !v.Valid:
+		return "either", "invalid-version-nothing-to-compare/" + rule
+	case !plainShape(sh):
+		return "either", rule + "/other-shape"
 	}
-	e := verOf(m.Existing[2:])
-	switch {
-	case e == nil || !e.Valid || !v.Valid:
-		return "refuse", "invalid-version"
-	case rank(v.S) > rank(e.S):
-		return "proceed", "higher"
-	case rank(v.S) == rank(e.S):
-		return "refuse", "equal-precedence"
-	}
-	return "refuse", "lower"
+	return "proceed", rule
 }
 
 func treeOfDir(es []entry) map[string]entry {
@@ -718,6 +760,17 @@ func treeOfDir(es []entry) map[string]entry {
 }
 
 func sameEntries(a, b []entry) bool { return hashTree(a) == hashTree(b) && len(a) == len(b) }
+
+// inside returns <root>/foo and what is below it.
+func inside(es []entry) []entry {
+	var o []entry
+	for _, e := range es {
+		if inPluginDir(e.P) {
+			o = append(o, e)
+		}
+	}
+	return o
+}
 
 func stripped(es []entry, extras []string) []entry {
 	var o []entry
@@ -734,10 +787,11 @@ outer:
 }
 
 // judged applies op o to the root (whose tree is `beforeT`, model m) and
-// evaluates the oracle.
+// evaluates the oracle. Only what the statement says is a violation; what the
+// current code happens to do beyond it is recorded (res.record).
 func judged(mgr *plugin.CLIManager, root, srcBase string, m model, o op, beforeT []entry, res *result) {
 	res.Model = m
-	bb := behave(mgr, res)
+	bb, bk := behave(mgr, res)
 	if bb != m.behaviour() {
 		res.Infra = fmt.Sprintf("state model says %q but the installed plugin behaves %q before %s", m.behaviour(), bb, o)
 		return
@@ -750,47 +804,52 @@ func judged(mgr *plugin.CLIManager, root, srcBase string, m model, o op, beforeT
 			res.Infra = "snapshot: " + serr.Error()
 			return
 		}
-		res.After, res.AfterHash, res.StripHash = afterT, hashTree(afterT), hashTree(afterT)
+		res.After, res.AfterHash, res.StripHash = afterT, stateHash(afterT), hashTree(inside(afterT))
 		if err != nil {
 			res.Err = err.Error()
 		}
-		if m.Dir {
-			res.Want = "proceed"
-			res.Nontrivial = true
-			switch {
-			case err != nil:
-				res.violation("uninstall/failed-on-existing-dir:"+m.class(), "Uninstall(foo) on a root holding %s failed: %v", showTree(beforeT), err)
-				if !sameEntries(afterT, beforeT) {
-					res.violation("uninstall/failed-but-tree-changed:"+m.class(), "tree before %s after %s", showTree(beforeT), showTree(afterT))
-				}
-				res.Outcome = "uninstall:existing-dir->error"
-			default:
-				res.Proceeded = true
-				res.Model = model{"none", false}
-				if !sameEntries(afterT, outside(beforeT)) {
-					res.violation("uninstall/removed-not-exactly-plugin-dir:"+m.class(), "tree before %s after %s", showTree(beforeT), showTree(afterT))
-				}
-				if ab := behave(mgr, res); ab != "absent" {
-					res.violation("uninstall/still-fetchable:"+m.class(), "after Uninstall Get/GetMetadata answers %q", ab)
-				}
-				if in, l, _ := listed(mgr, res); in {
-					res.violation("uninstall/still-listed:"+m.class(), "after Uninstall List = %q", l)
-				}
-				res.Outcome = "uninstall:existing-" + m.class() + "->removed"
-			}
-			return
+		if !sameEntries(outside(afterT), outside(beforeT)) {
+			res.record("uninstall/entries-outside-plugin-dir-changed")
 		}
-		res.Want = "refuse"
-		if !sameEntries(afterT, beforeT) {
-			res.violation("uninstall/nothing-installed-but-tree-changed", "tree before %s after %s", showTree(beforeT), showTree(afterT))
-		}
+		installed := strings.HasPrefix(m.Existing, "v:")
+		res.Nontrivial = m.Dir
 		switch {
-		case err == nil:
-			res.Outcome = "uninstall:nothing-installed->nil"
-		case errors.Is(err, os.ErrNotExist):
-			res.Outcome = "uninstall:nothing-installed->ErrNotExist"
+		case err != nil:
+			res.Want = "refuse"
+			if installed {
+				// "it can afterwards be … uninstalled by its name"
+				res.Want = "proceed"
+				res.violation("uninstall/failed-on-installed-plugin", "Uninstall(foo) on a root holding %s failed: %v", showTree(beforeT), err)
+			} else if m.Dir {
+				res.record("uninstall/failed-on-directory-without-working-plugin:" + m.class())
+			}
+			if !sameEntries(inside(afterT), inside(beforeT)) {
+				res.record("uninstall/failed-but-plugin-dir-changed")
+				res.NoSuccessor = true // no model for what is left
+			}
+			switch {
+			case errors.Is(err, os.ErrNotExist):
+				res.Outcome = "uninstall:" + m.class() + "->ErrNotExist"
+			default:
+				res.Outcome = "uninstall:" + m.class() + "->other-error"
+			}
 		default:
-			res.Outcome = "uninstall:nothing-installed->other-error"
+			res.Want = "proceed"
+			res.Proceeded = true
+			res.Model = model{"none", false}
+			if len(inside(afterT)) != 0 {
+				res.violation("uninstall/plugin-dir-not-removed:"+m.class(), "Uninstall(foo) returned nil; tree before %s after %s", showTree(beforeT), showTree(afterT))
+			}
+			if ab, _ := behave(mgr, res); ab != "unavailable" {
+				res.violation("uninstall/still-fetchable:"+m.class(), "after Uninstall Get/GetMetadata answers %q", ab)
+			}
+			if in, l, _ := listed(mgr, res); in {
+				res.violation("uninstall/still-listed:"+m.class(), "after Uninstall List = %q", l)
+			}
+			res.Outcome = "uninstall:" + m.class() + "->removed"
+			if !m.Dir {
+				res.Outcome = "uninstall:nothing-installed->nil"
+			}
 		}
 		return
 	}
@@ -821,9 +880,9 @@ func judged(mgr *plugin.CLIManager, root, srcBase string, m model, o op, beforeT
 		res.Infra = "snapshot: " + serr.Error()
 		return
 	}
-	res.After, res.AfterHash = afterT, hashTree(afterT)
-	res.StripHash = hashTree(stripped(afterT, src.Extras))
-	ab := behave(mgr, res)
+	res.After, res.AfterHash = afterT, stateHash(afterT)
+	res.StripHash = hashTree(stripped(inside(afterT), src.Extras))
+	ab, ak := behave(mgr, res)
 	res.Proceeded = ierr == nil
 	observed := "refused"
 	if ierr == nil {
@@ -832,13 +891,16 @@ func judged(mgr *plugin.CLIManager, root, srcBase string, m model, o op, beforeT
 		res.Err = ierr.Error()
 	}
 	res.Outcome = "install:" + reason + "->" + observed
+	if !sameEntries(outside(afterT), outside(beforeT)) {
+		// staging directories, a created root … : the statement speaks about the plugin's files
+		res.record("install/entries-outside-plugin-dir-changed")
+	}
 
 	// --- the decision -------------------------------------------------------
 	// keys: by version pair when the source is one of the two plain shapes, by
 	// shape otherwise (then the shape, not the pair, is what is special)
-	plain := sh.Label == "file-exe" || sh.Label == "dir-exe"
 	by := func(family, plainLabel string) string {
-		if plain {
+		if plainShape(sh) {
 			return "install/" + family + ":" + plainLabel
 		}
 		return "install/" + family + "-from-shape:" + sh.Label
@@ -846,8 +908,6 @@ func judged(mgr *plugin.CLIManager, root, srcBase string, m model, o op, beforeT
 	switch {
 	case want == "refuse" && ierr == nil:
 		switch reason {
-		case "unusable-source":
-			res.violation("install/accepted-unusable-source:"+sh.Label, "%s from state %s succeeded although the source is not a usable plugin source", o, showTree(beforeT))
 		case "invalid-metadata":
 			if !sh.MetaOK {
 				res.violation("install/accepted-invalid-metadata:"+sh.Label, "%s succeeded although the candidate's metadata is invalid or names another plugin", o)
@@ -860,39 +920,38 @@ func judged(mgr *plugin.CLIManager, root, srcBase string, m model, o op, beforeT
 			res.violation(by("accepted-not-higher", pair), "%s over existing %s succeeded without overwrite (%s)", o, m.Existing, reason)
 		}
 	case want == "proceed" && ierr != nil:
+		// only the two plain shapes with a valid version get here
 		switch reason {
 		case "higher":
-			res.violation(by("refused-higher", pair), "%s over existing %s refused: %v", o, m.Existing, ierr)
+			res.violation("install/refused-higher:"+pair, "%s over existing %s refused: %v", o, m.Existing, ierr)
 		case "overwrite":
 			res.violation("install/refused-despite-overwrite:"+sh.Label, "%s over existing %s refused: %v", o, m.Existing, ierr)
 		default:
 			res.violation("install/refused-without-existing-plugin:"+sh.Label, "%s into a root without plugin foo refused: %v", o, ierr)
 		}
+	case want == "either" && reason == "unusable-source" && ierr == nil:
+		res.record("install/accepted-source-labelled-unusable:" + sh.Label)
 	}
 
 	// --- consequences of what the code reported -----------------------------
 	if ierr != nil {
-		if !sameEntries(afterT, beforeT) {
-			res.violation("install/refused-but-tree-changed:"+sh.Label, "%s over %s refused (%v) but the tree changed: before %s after %s", o, m.Existing, ierr, showTree(beforeT), showTree(afterT))
+		// "leaves the installed plugin's files and behaviour exactly as they were"
+		if !sameEntries(inside(afterT), inside(beforeT)) {
+			res.violation("install/refused-but-tree-changed:"+sh.Label, "%s over %s refused (%v) but the plugin's files changed: before %s after %s", o, m.Existing, ierr, showTree(beforeT), showTree(afterT))
 		}
-		if ab != bb {
-			res.violation("install/refused-but-behaviour-changed:"+sh.Label, "%s over %s refused (%v) but Get/GetMetadata answered %q before and %q after", o, m.Existing, ierr, bb, ab)
+		if ab != bb || ak != bk {
+			res.violation("install/refused-but-behaviour-changed:"+sh.Label, "%s over %s refused (%v) but Get/GetMetadata answered %q (%s) before and %q (%s) after", o, m.Existing, ierr, bb, bk, ab, ak)
 		}
 		return
 	}
 	res.Model = model{"v:" + o.Version, true}
 	res.Control = want == "proceed"
-	// <root>/foo holds exactly the regular top-level files of the source
+	// <root>/foo holds exactly the regular top-level files of the source (names, bytes)
 	got := treeOfDir(afterT)
 	exact := len(got) == len(src.Top)
 	for n, h := range src.Top {
 		g, ok := got[n]
 		if !ok || g.H != h || !fs.FileMode(g.M).IsRegular() {
-			exact = false
-		}
-	}
-	if exact {
-		if g := got[exeName]; fs.FileMode(g.M)&0o100 == 0 {
 			exact = false
 		}
 	}
@@ -902,27 +961,25 @@ func judged(mgr *plugin.CLIManager, root, srcBase string, m model, o op, beforeT
 			names = append(names, n)
 		}
 		sort.Strings(names)
-		res.violation("install/tree-not-exactly-source:"+sh.Label, "%s succeeded; source top-level files %q (executable %s must be executable); plugin directory holds %s", o, names, exeName, showTree(afterT))
-	}
-	if !sameEntries(outside(afterT), outside(beforeT)) {
-		res.violation("install/touched-outside-plugin-dir:"+sh.Label, "%s: entries outside %s before %s after %s", o, pluginName, showTree(outside(beforeT)), showTree(outside(afterT)))
+		res.violation("install/tree-not-exactly-source:"+sh.Label, "%s succeeded; source top-level files %q; plugin directory holds %s", o, names, showTree(afterT))
 	}
 	if wantB := "ok:" + pluginName + "@" + o.Version; ab != wantB {
 		res.violation("install/installed-plugin-answers-wrong:"+sh.Label, "%s succeeded but Get(foo).GetMetadata answers %q, want %q", o, ab, wantB)
 	}
+	// the values returned by Install are not part of the statement: recorded
 	if newMd == nil || newMd.Version != o.Version || newMd.Name != pluginName {
-		res.violation("install/returned-new-metadata-wrong:"+sh.Label, "%s returned new metadata %+v", o, newMd)
+		res.record("install/returned-new-metadata-differs")
 	}
 	switch {
 	case strings.HasPrefix(m.Existing, "v:") && (exMd == nil || exMd.Version != e || exMd.Name != pluginName):
-		res.violation("install/returned-existing-metadata-wrong:version", "%s over %s returned existing metadata %+v", o, m.Existing, exMd)
+		res.record("install/returned-existing-metadata-differs:version")
 	case !strings.HasPrefix(m.Existing, "v:") && exMd != nil:
-		res.violation("install/returned-existing-metadata-wrong:"+m.Existing, "%s over existing=%s returned existing metadata %+v, want nil", o, m.Existing, exMd)
+		res.record("install/returned-existing-metadata-differs:" + m.Existing)
 	}
-	if in, l, lerr := listed(mgr, res); !in || lerr != nil {
+	if in, l, lerr := listed(mgr, res); !in {
 		res.violation("install/not-listed:"+sh.Label, "after %s List = %q, %v", o, l, lerr)
 	}
-	// and can afterwards be uninstalled by its name: exactly that directory goes
+	// and can afterwards be uninstalled by its name
 	res.Evals++
 	if uerr := mgr.Uninstall(ctx, pluginName); uerr != nil {
 		res.violation("uninstall-after-install/failed:"+sh.Label, "Uninstall(foo) after %s: %v", o, uerr)
@@ -933,10 +990,13 @@ func judged(mgr *plugin.CLIManager, root, srcBase string, m model, o op, beforeT
 		res.Infra = "snapshot: " + serr.Error()
 		return
 	}
-	if !sameEntries(finalT, outside(afterT)) {
-		res.violation("uninstall-after-install/removed-not-exactly-plugin-dir:"+sh.Label, "after %s the tree was %s, after Uninstall(foo) %s", o, showTree(afterT), showTree(finalT))
+	if len(inside(finalT)) != 0 {
+		res.violation("uninstall-after-install/plugin-dir-not-removed:"+sh.Label, "after %s the tree was %s, after Uninstall(foo) %s", o, showTree(afterT), showTree(finalT))
 	}
-	if fb := behave(mgr, res); fb != "absent" {
+	if !sameEntries(outside(finalT), outside(afterT)) {
+		res.record("uninstall-after-install/entries-outside-plugin-dir-changed")
+	}
+	if fb, _ := behave(mgr, res); fb != "unavailable" {
 		res.violation("uninstall-after-install/still-fetchable:"+sh.Label, "Get/GetMetadata answers %q after Uninstall", fb)
 	}
 }
@@ -992,8 +1052,8 @@ func runCase(req request) (res result) {
 		res.Infra = "snapshot: " + err.Error()
 		return
 	}
-	if req.WantHash != "" && hashTree(beforeT) != req.WantHash {
-		res.Infra = fmt.Sprintf("replaying history %v from %s gave tree %s (%s), expected hash %s: the code under test is not a function of the tree", req.Hist, req.Init, showTree(beforeT), hashTree(beforeT), req.WantHash)
+	if req.WantHash != "" && stateHash(beforeT) != req.WantHash {
+		res.Infra = fmt.Sprintf("replaying history %v from %s gave tree %s (%s), expected hash %s: the code under test is not a function of the tree", req.Hist, req.Init, showTree(beforeT), stateHash(beforeT), req.WantHash)
 		return
 	}
 	judged(mgr, root, filepath.Join(req.Dir, "src"), m, req.Op, beforeT, &res)
@@ -1122,6 +1182,11 @@ type state struct {
 	Depth int
 }
 
+// quickGenerated: the versions the generated shapes meet in the quick tier (a
+// pre-release, a release, a non-semantic version: lower / equal / higher /
+// invalid relative to the installed versions all occur).
+var quickGenerated = map[string]bool{"1.0.0-beta.11": true, "1.0.0": true, "1.0": true}
+
 func alphabet(thorough bool) (ops []op, vs []ver, shs []shape) {
 	for _, v := range versions {
 		if thorough || v.Quick {
@@ -1136,7 +1201,7 @@ func alphabet(thorough bool) (ops []op, vs []ver, shs []shape) {
 	for _, v := range vs {
 		for _, ow := range []bool{false, true} {
 			for _, s := range shs {
-				if s.Sub && !v.Quick {
+				if s.Sub && (!v.Quick || (!thorough && !quickGenerated[v.S])) {
 					// what a sub-directory, a misnamed or an invalid answer does to an installation
 					// does not depend on the version: these shapes meet the six versions of the quick set only
 					continue
@@ -1188,7 +1253,7 @@ func search(r *hx.Run) {
 			r.Infra("initial state %s: %v", in.Label, err)
 			return
 		}
-		s := &state{ID: len(all), Hash: hashTree(t), Tree: t, Init: in.Label, Model: in.Model}
+		s := &state{ID: len(all), Hash: stateHash(t), Tree: t, Init: in.Label, Model: in.Model}
 		if _, dup := seen[s.Hash]; dup {
 			r.Infra("two initial states share a tree: %s", in.Label)
 			return
@@ -1254,7 +1319,10 @@ func search(r *hx.Run) {
 			if transitions%997 == 1 {
 				r.Sample(map[string]any{"init": s.Init, "history": fmt.Sprint(s.Hist), "state_model": s.Model, "op": o.String(), "reference": res.Want, "outcome": res.Outcome, "error": res.Err, "tree_after": showTree(res.After)})
 			}
-			if len(res.Viol) > 0 {
+			for _, k := range res.Recorded {
+				r.Outcome("recorded:" + k)
+			}
+			if len(res.Viol) > 0 || res.NoSuccessor {
 				// the model of a successor reached through a violating transition is unreliable
 				// (e.g. the installed bytes are not the source's): do not explore from it
 				violating++
@@ -1337,7 +1405,7 @@ func search(r *hx.Run) {
 	r.Extra["source_shapes_generated"] = nsub
 	r.Extra["near_miss_metadata_names"] = len(nearMissNames)
 	r.Extra["invalid_metadata_variants"] = len(badMetadata)
-	r.Extra["alphabet"] = "Install: (plain shapes x all versions + generated shapes {sub-directories, near-miss metadata names, invalid metadata} x the six quick versions) x overwrite; Uninstall(foo)"
+	r.Extra["alphabet"] = "Install: (plain shapes x all versions + generated shapes {sub-directories, near-miss metadata names, invalid metadata} x six versions (quick tier: three)) x overwrite; Uninstall(foo)"
 	r.Extra["initial_states"] = len(inits)
 	r.Extra["worker_processes"] = nw
 	var byModel = map[string]int{}
@@ -1359,13 +1427,10 @@ func differential(base, variant *result, label string) (key, what string) {
 		return "differential/outcome-differs:" + label, fmt.Sprintf("base proceeded=%v (%s), variant proceeded=%v (%s)", base.Proceeded, base.Err, variant.Proceeded, variant.Err)
 	}
 	if !base.Proceeded {
-		// both refused: each is separately held to "tree unchanged"
-		if variant.AfterHash != base.AfterHash {
-			return "differential/refused-trees-differ:" + label, fmt.Sprintf("tree after base %s, after variant %s", showTree(base.After), showTree(variant.After))
-		}
-		return "", ""
+		return "", "" // both refused: each is separately held to "plugin's files unchanged"
 	}
-	if variant.StripHash != base.AfterHash {
+	// the plugin directories (paths, modes, bytes), the variant's own extra files set aside
+	if variant.StripHash != base.StripHash {
 		return "differential/installed-plugin-differs:" + label, fmt.Sprintf("tree after base %s, after variant %s (extra files of the variant may only add themselves)", showTree(base.After), showTree(variant.After))
 	}
 	return "", ""
@@ -1393,6 +1458,9 @@ func replay(r *hx.Run) {
 			r.Violation(v.Key, fmt.Sprintf("init=%s history=%v: %s", c.Init, c.History, v.What), replayCase{Kind: "transition", Init: c.Init, History: c.History, Op: o})
 		}
 		r.Outcome(res.Outcome)
+		for _, k := range res.Recorded {
+			r.Outcome("recorded:" + k)
+		}
 		fmt.Printf("replay: init=%s history=%v op=%s reference=%s outcome=%s err=%q tree=%s\n", c.Init, c.History, o, res.Want, res.Outcome, res.Err, showTree(res.After))
 		return res
 	}
@@ -1417,9 +1485,8 @@ func main() {
 	r.Rule = "breadth-first closure of the state graph of CLIManager on a real plugin root: state = file tree (paths, modes, bytes) under the root, deduplicated by a canonical hash; from every reachable state every operation {Install(version x overwrite x source shape), Uninstall(foo)} is executed by the real code in a fresh directory (shortest history replayed first) and judged by a reference installer that sees only the generator's description of the source and the model of the state; non-trivial = distinct (state, operation) pairs where a plugin directory exists and the source is usable with valid metadata (the version rule or overwrite decides), and uninstalls of an existing directory"
 	r.Assumptions = []string{
 		"plugins are POSIX shell scripts whose bytes embed name and version (an installed copy is self-describing); /bin/sh exists",
-		"hand labels: a single non-executable FILE is an unusable source, a directory with exactly one non-executable notation-* candidate is usable, a directory with exactly one executable candidate plus a non-executable notation-* file is usable; two executable or two non-executable candidates are unusable",
-		"a version that is not a semantic version (1.0, v1.0.0, 01.0.0) still passes metadata validation, so it installs into a root without the plugin or with overwrite; the empty version is missing mandatory metadata",
-		"existing plugin malfunctioning and overwrite not requested: the statement fixes neither refusal nor replacement; recorded as outcome class install:broken-existing-no-overwrite->*; the consequences of whichever happens are checked",
+		"what is enforced is the statement only: refusal is demanded for invalid/misnamed metadata and for an existing versioned plugin without overwrite unless the new version is strictly higher (whatever the source); success is demanded only for the two plain sources (the executable, the directory holding only it) with a valid version and no existing plugin / overwrite / strictly higher version; every other usable-labelled shape is tied to the plain shape of its family by the differential clause; sources labelled unusable, a non-semantic version with nothing to compare against, and a malfunctioning existing plugin without overwrite may go either way (recorded); whatever Install reports, the stated consequences of a refusal / a success are checked",
+		"recorded, not judged (outcome classes recorded:*): entries under the root outside <root>/foo, the metadata values returned by Install, acceptance of a source labelled unusable, Uninstall on a directory that holds no working plugin; error texts and error types are never compared",
 		"semantic-version precedence is the row order of the hand-written table `precedence` (1.0.0 and 1.0.0+b1 share a row)",
 		"file modes of installed extra files are part of the state hash but not of the 'exactly the source files' oracle (names and bytes; the executable must be executable)",
 		"each case runs in a single-case worker process so that no foreign child holds a descriptor of a freshly written script (ETXTBSY)",
